@@ -4,6 +4,7 @@ from props.common import svt, gens, summarize_cfg, first_difference, run_status
 
 ID = "C27"
 LEVEL = "exploration"
+TAG_KEYS = True   # violation keys get the configuration feature tag appended (engine.feature_tag)
 RULE = ("Hypothesis draws (configuration, content, N in 1..120, recon on/off, lp) and 2-3 call patterns: per submitted picture a token over {poll all packets, poll one "
         "packet, poll all recon, sleep 0.1/1/5 ms, nothing}: drain after every send (the must-complete pattern, always the reference), every k sends, only at the end, random. "
         "speed_control_flag=1 is excluded (documented as timing-adaptive). Oracle: the reference pattern completes (deadlock signature => violation); any other "
